@@ -71,6 +71,7 @@ class Check:
         self.samples = []
         self.violations = []
         self.known = {}
+        self.classes = {}
         self.drift = []
         self.assumptions = []
         self.extra = {}
@@ -110,7 +111,10 @@ class Check:
                 self.known.setdefault(k, {"finding": f, "n": 0, "first": detail})
                 self.known[k]["n"] += 1
                 return False
-        if len(self.violations) < 50:
+        key = json.dumps(sig, sort_keys=True, default=str)
+        self.classes[key] = self.classes.get(key, 0) + 1
+        # keep the first few of every class, at most 60 in all
+        if self.classes[key] <= 3 and sum(1 for v in self.violations if v is not None) < 60:
             self.violations.append({"sig": sig, "detail": detail, "replay": replay})
         else:
             self.violations.append(None)
@@ -174,7 +178,9 @@ class Check:
                     print("  sig=%s" % json.dumps(v["sig"], default=str)[:600])
                     print("  detail=%s" % str(v["detail"])[:800])
                     shown += 1
-            print("%s: %d violation(s) [%s tier, %.1fs]" % (self.pid, len(real), self.tier, wall))
+            for k, n in sorted(self.classes.items(), key=lambda kv: -kv[1])[:25]:
+                print("  class x%d %s" % (n, k[:300]))
+            print("%s: %d violation(s) in %d class(es) [%s tier, %.1fs]" % (self.pid, len(real), len(self.classes), self.tier, wall))
             return 1
         print("%s: ok  states=%d transitions=%d impl_traces=%d evaluations=%d nontrivial=%d known=%d drift=%d [%s tier, %.1fs]" % (
             self.pid, self.states, self.transitions, self.traces_validated, self.evaluations, len(self.nontrivial),
